@@ -19,9 +19,43 @@ def all_caches():
     return list(out.values())
 
 
-def clear_all():
+_SNAP = {}  # (module, attribute) -> (container object, its content when first seen)
+
+
+def _module_containers():
+    for name, mod in list(sys.modules.items()):
+        if not (name == "typelib" or name.startswith("typelib.")) or mod is None:
+            continue
+        for attr, obj in list(vars(mod).items()):
+            if type(obj) in (dict, list, set) and not attr.startswith("__"):
+                yield (name, attr), obj
+
+
+def restore_module_state():
+    """Module-level mutable tables (future._GENERICS, classes._stack, ...) back to the content they had when first
+    seen, so that one explored path cannot leak process-global state into the next one (a path that mutates such a
+    table still observes its own mutation: the restore runs at the start of a path, never inside it)."""
+    for key, obj in _module_containers():
+        if key not in _SNAP:
+            _SNAP[key] = (obj, type(obj)(obj))
+            continue
+        ref, content = _SNAP[key]
+        if ref is not obj:  # the attribute was rebound: remember the new object
+            _SNAP[key] = (obj, type(obj)(obj))
+            continue
+        if obj != content:
+            if type(obj) is list:
+                obj[:] = content
+            else:
+                obj.clear()
+                obj.update(content)
+
+
+def clear_all(restore=True):
     n = 0
     for _, c in all_caches():
         c.cache_clear()
         n += 1
+    if restore:
+        restore_module_state()
     return n
